@@ -20,7 +20,7 @@ RULE = ('(1) the sets of stores to shared objects / bs4 objects are re-extracted
         'pattern pA under a line tracer and is suspended after its k-th line inside soupsieve (every k up to the end of the '
         'compile), thread B then compiles pB to completion, A resumes; for every pair (pA, pB) from a set that exercises each '
         'special pseudo-class handler; A\'s and B\'s results and the pattern cache afterwards must equal the sequential results; '
-        'thorough adds two suspension points per run; (3) the same with select()/match() on one shared document; (4) '
+        'thorough adds two suspension points per run; (3) the same with select()/match() on one shared document, and (3b) with match / select / select_one / closest / filter on different documents and detached fragments (nth tests on a parentless root); (4) '
         'free-running threads with a tiny switch interval as a smoke test. Non-trivial = schedules in which B runs while A is '
         'inside the tokenizer or the parser loop (not before its first or after its last line).')
 
@@ -28,6 +28,36 @@ PATTERNS = [':nth-child(2n+1)', ':lang(en, "de-*")', ':-soup-contains("x", y)', 
             ':nth-last-child(odd of p, q)', ':is(a, :lang(fr)) + :nth-child(even)', ':--k', 'p:checked ~ :default']
 CUSTOM = {':--k': 'div > :nth-child(2)'}
 FILES = ('css_parser.py', 'css_match.py', 'util.py', 'css_types.py', '__init__.py')
+
+
+def fragment_calls():
+    import bs4
+
+    def frag(markup, name):
+        return bs4.BeautifulSoup(markup, 'html.parser').find(name).extract()
+    f1 = frag('<ul class="a"><li>1</li><li class="x">2</li><li>3</li></ul>', 'ul')
+    f2 = frag('<ol><li class="x">1</li><li>2</li></ol>', 'ol')
+    d2 = bs4.BeautifulSoup('<div><p class="x">a</p><p>b</p><span>c</span></div>', 'html.parser')
+
+    def ids(v):
+        if v is None or isinstance(v, bool):
+            return v
+        if isinstance(v, bs4.Tag):
+            return id(v)
+        return [id(e) for e in v]
+    calls = [
+        ('match(ul:first-child, frag1)', lambda: ids(sv.match('ul:first-child', f1))),
+        ('match(ol:nth-child(1), frag2)', lambda: ids(sv.match('ol:nth-child(1)', f2))),
+        ('match(:only-child, frag2)', lambda: ids(sv.match(':only-child', f2))),
+        ('select(:first-child > li:nth-child(2), frag1)', lambda: ids(sv.select(':last-child > li:nth-child(2)', f1))),
+        ('select(li:nth-last-child(1), frag2)', lambda: ids(sv.select('li:nth-last-child(1)', f2))),
+        ('closest(ul:last-child, li of frag1)', lambda: ids(sv.closest('ul:last-child', f1.li))),
+        ('filter(.x, frag2)', lambda: ids(sv.filter('.x', f2))),
+        ('filter(:nth-of-type(1), [frag1, frag2])', lambda: ids(sv.filter(':nth-of-type(1)', [f1, f2]))),
+        ('select(p:nth-child(2), doc2)', lambda: ids(sv.select('p:nth-child(2), :root:first-child', d2))),
+        ('select_one(:has(> .x), frag1)', lambda: ids(sv.select_one(':root:has(> .x)', f1) or sv.match(':root:has(> .x)', f1))),
+    ]
+    return calls
 
 
 class Paused(threading.Thread):
@@ -128,6 +158,33 @@ def run(chk):
                 bad.append({'what': 'interleaved compiles differ from sequential compiles', 'thread_A': pa, 'thread_B': pb, 'A_suspended_after_line': pauses,
                             'A_result': repr(ra)[:200], 'B_result': repr(rb)[:200], 'cache_A_ok': after_a == ref[pa], 'cache_B_ok': after_b == ref[pb]})
                 break
+    # (2b) two different patterns that use the same custom selector from an equal, never-seen-before custom table
+    cust_pairs = [(':--k', 'p :--k'), (':--k > a', ':is(:--k, b)'), ('p :--k', ':--k'), (':not(:--k)', ':--k ~ c')]
+    tag = [0]
+
+    def comp_c(p):
+        t = tag[0]
+        return lambda: sv.compile(p, custom={':--k': 'div > :nth-child(2)', f':--u{t}': 'u'}).selectors
+    for pa, pb in cust_pairs:
+        tag[0] += 1
+        refa, refb = comp_c(pa)(), comp_c(pb)()
+        tag[0] += 1
+        sv.purge()
+        _, _, n = interleave(comp_c(pa), comp_c(pb), [])
+        ks = list(range(1, n + 1))
+        if quick and len(ks) > 80:
+            ks = sorted(rng.sample(ks, 80))
+        for k in ks:
+            tag[0] += 1
+            sv.purge()
+            ra, rb, _ = interleave(comp_c(pa), comp_c(pb), [k])
+            schedules += 1
+            inside += 1
+            if ra != ('ok', refa) or rb != ('ok', refb):
+                bad.append({'what': 'interleaved compiles of two patterns sharing a custom selector differ from sequential compiles', 'thread_A': pa,
+                            'thread_B': pb, 'custom': {':--k': 'div > :nth-child(2)', ':--u<fresh>': 'u'}, 'A_suspended_after_line': [k],
+                            'A_result': repr(ra)[:200], 'B_result': repr(rb)[:200]})
+                break
     # (3) matching on a shared document
     kind, top = gen.gen_state_doc(rng)
     soup = gen.build_doc('html', top)
@@ -145,6 +202,23 @@ def run(chk):
                     bad.append({'what': 'interleaved select() calls differ from sequential ones', 'thread_A': sa, 'thread_B': sb,
                                 'A_suspended_after_line': [k]})
                     break
+    # (3b) different documents and detached fragments through every entry point
+    calls = fragment_calls()
+    cpairs = [(a, b) for a in calls for b in calls if a is not b]
+    if quick:
+        cpairs = rng.sample(cpairs, 24)
+    for (na, fa), (nb, fb) in cpairs:
+        refa, refb = fa(), fb()
+        _, _, n = interleave(fa, fb, [])
+        for k in sorted(rng.sample(range(1, n + 1), min(n, 40 if quick else n))):
+            ra, rb, _ = interleave(fa, fb, [k])
+            schedules += 1
+            inside += 1
+            if ra != ('ok', refa) or rb != ('ok', refb):
+                bad.append({'what': 'a call on one tree changed its result because a call on another tree ran in the middle of it',
+                            'thread_A': na, 'thread_B': nb, 'A_suspended_after_line': [k], 'A_result': repr(ra), 'A_alone': repr(refa),
+                            'B_result': repr(rb), 'B_alone': repr(refb)})
+                break
     # (4) free-running smoke test
     old = sys.getswitchinterval()
     sys.setswitchinterval(1e-6)
@@ -190,6 +264,16 @@ def replay(chk, path):
                                data['A_suspended_after_line'])
         ok = ra == ('ok', refa) and rb == ('ok', refb)
         print(json.dumps({'ok': ok}))
+        if not ok:
+            print(f'VIOLATION property={PID} replay={path}')
+            return 1
+    elif str(data.get('what', '')).startswith('a call on one tree'):
+        calls = dict(fragment_calls())
+        fa, fb = calls[data['thread_A']], calls[data['thread_B']]
+        refa, refb = fa(), fb()
+        ra, rb, _ = interleave(fa, fb, data['A_suspended_after_line'])
+        ok = ra == ('ok', refa) and rb == ('ok', refb)
+        print(json.dumps({'ok': ok, 'A': repr(ra), 'A_alone': repr(refa)}))
         if not ok:
             print(f'VIOLATION property={PID} replay={path}')
             return 1
